@@ -486,6 +486,34 @@ def end_to_end_second(ctx: Ctx, RULE: str = "R1.e2"):
         ("grandchild with an 8-bit trailing field (K=2, Z=1, EN=TRUE)", pack_second(2, 1, 20, -1, 3, W, 12, 1, b"\x66", bytes([3, 8, 0x5A]))),
         ("enumeration label FALSE: the child but not the grandchild (K=2, Z=2)", pack_second(2, 2, 5, 5, 7, 7, 7, 0, b"\x77", bytes([6]))),
     ]
+    # what is decoded does not depend on the logging level: the whole table is decoded once more with DEBUG logging on
+    site = f"{GEN}::second document::same results with DEBUG logging enabled"
+    try:
+        outs = []
+        for dbg in (False, True):
+            h.it.ext["debug_logging"] = dbg
+            h.it.events.clear()
+            k, got = h.outcome("d.packet_generator(src, yield_unrecognized_packet_errors=True)", DEF, d=d,
+                               src=b"".join(ccsds_bytes(u, apid=33) for _, u in cases))
+            fmt_errors = [e for e in h.it.events if e and e[0] == "log-format-error"]
+            outs.append((k, [(y.tname if isinstance(y, ExcVal) else [(n, _show(v), _show(v.attrs.get("raw_value"))) for n, v in y.items()])
+                             for y in got] if k == "ok" else got, fmt_errors))
+        h.it.ext["debug_logging"] = False
+        same = outs[0][:2] == outs[1][:2] and not outs[1][2]
+        why = ""
+        if not same:
+            if outs[1][2]:
+                why = f"with DEBUG logging enabled a log call cannot format its message: {outs[1][2][0]}"
+            elif outs[1][0] != "ok":
+                why = f"with DEBUG logging enabled decoding the stream ends in {outs[1][1]}"
+            else:
+                i = next((j for j, (a, b) in enumerate(zip(outs[0][1], outs[1][1])) if a != b), None)
+                why = (f"with DEBUG logging enabled packet {i} decodes to {outs[1][1][i] if i is not None else len(outs[1][1])} instead of "
+                       f"{outs[0][1][i] if i is not None else len(outs[0][1])}")
+        ctx.decide(same, RULE, site, "identical items with and without DEBUG logging", why, where=where(fi, fi.node))
+    except (Unsupported, StepLimit) as e:
+        h.it.ext["debug_logging"] = False
+        ctx.unknown(RULE, site, str(e))
     for report in (False, True):
         for desc, user in cases:
             site = f"{GEN}::second document::report_unrecognized={report}::{desc[:60]}"
